@@ -102,6 +102,13 @@ def source_bytes(name: str) -> bytes:
     return b
 
 
+def _viol(col: common.Collector, sig: Sequence[Any], detail: Dict[str, Any]) -> None:
+    """every witness names its own signature so that a replay can re-judge exactly that one"""
+    if "sig" not in detail:
+        detail = dict(detail, sig=[str(x) for x in sig])
+    col.violation(sig, detail)
+
+
 def _prep() -> None:
     warnings.simplefilter("ignore")
     H.install_jinja_cache()
@@ -136,12 +143,12 @@ def task_roundtrip(name: str, col: common.Collector) -> None:
     try:
         pdx2 = H.write_bytes(db1)
     except Exception as e:
-        col.violation(("write-raises", cls, tag), dict(base, problem=_exc(e)))
+        _viol(col, ("write-raises", cls, tag), dict(base, problem=_exc(e)))
         return
     try:
         db2 = H.load_bytes(pdx2)
     except Exception as e:
-        col.violation(("reload-raises", cls, tag), dict(base, problem=_exc(e)))
+        _viol(col, ("reload-raises", cls, tag), dict(base, problem=_exc(e)))
         return
     col.nontrivial(("roundtrip", name))
     col.notes.setdefault("usable_sources", []).append(name)
@@ -149,7 +156,7 @@ def task_roundtrip(name: str, col: common.Collector) -> None:
     col.count("roundtrip_fields_compared_sources")
     keyed = H.diff_keys(diffs)
     for key, d in sorted(keyed.items()):
-        col.violation(key, dict(base, path=d["path"], loaded_from_source=d["first"],
+        _viol(col, key, dict(base, path=d["path"], loaded_from_source=d["first"],
                                 after_write_and_reload=d["second"]))
     # (2) second write identical
     col.ev()
@@ -161,12 +168,12 @@ def task_roundtrip(name: str, col: common.Collector) -> None:
                 a, b = m2.get(n, b""), m3.get(n, b"")
                 i = next((k for k in range(min(len(a), len(b))) if a[k] != b[k]),
                          min(len(a), len(b)))
-                col.violation(("rewrite-differs", os.path.splitext(n)[1]),
+                _viol(col, ("rewrite-differs", os.path.splitext(n)[1]),
                               dict(base, member=n, first_difference_at=i,
                                    second_write=a[max(0, i - 80):i + 80].decode("utf8", "replace"),
                                    third_write=b[max(0, i - 80):i + 80].decode("utf8", "replace")))
     except Exception as e:
-        col.violation(("rewrite-raises", cls, tag), dict(base, problem=_exc(e)))
+        _viol(col, ("rewrite-raises", cls, tag), dict(base, problem=_exc(e)))
     # (3) behaviour
     c1, c2 = H.corpus(db1), H.corpus(db2)
     ok_items = 0
@@ -177,7 +184,7 @@ def task_roundtrip(name: str, col: common.Collector) -> None:
         if c1[k] != c2.get(k):
             parts = [x for x in k.split("/") if x != "alt"]
             layer, svc, step = (parts + ["", ""])[:3]
-            col.violation(("behaviour-differs", name, svc, step),
+            _viol(col, ("behaviour-differs", name, svc, step),
                           dict(base, key=k, on_source_db=c1[k], on_reloaded_db=c2.get(k)))
     col.count("corpus_items", len(c1))
     col.count("corpus_items_ok", ok_items)
@@ -192,7 +199,22 @@ def task_cache_selfcheck(name: str, col: common.Collector) -> None:
     import jinja2
     try:
         db = H.load_bytes(source_bytes(name))
-        cached = H.odx_members(H.write_bytes(db))
+        first = H.write_bytes(db)  # fills the cache in a fresh process
+        second = H.write_bytes(db)  # served from the cache
+        cached = H.odx_members(second)
+        if H.odx_members(first) != cached:
+            col.fail_inconclusive("two writes of one database object differ in their ODX members")
+        # outside the statement (it speaks of ODX documents), recorded as an observation only:
+        # write_pdx_file consumes the auxiliary file objects, a second write stores them empty
+        a1 = {n: c for n, c in H.pdx_members(first).items() if not H.is_odx_name(n) and
+              n != "index.xml"}
+        a2 = {n: c for n, c in H.pdx_members(second).items() if not H.is_odx_name(n) and
+              n != "index.xml"}
+        if a1 != a2:
+            col.notes.setdefault("observations_outside_the_statement", []).append(
+                "writing the same Database object twice stores different auxiliary files the "
+                "second time (" + ", ".join(f"{n}: {len(a1[n])} -> {len(a2.get(n, b''))} bytes"
+                                            for n in sorted(a1) if a1[n] != a2.get(n))[:300] + ")")
         env_init = jinja2.Environment.__init__
 
         def plain(self: Any, *a: Any, **kw: Any) -> None:
@@ -236,22 +258,22 @@ def _judge_entry(col: common.Collector, entry: str, name: str, ref: Any, ref_ext
     try:
         db = loader()
     except Exception as e:
-        col.violation(("entry-point-raises", entry.split("/")[0], type(e).__name__, _msg_cat(e)),
+        _viol(col, ("entry-point-raises", entry.split("/")[0], type(e).__name__, _msg_cat(e)),
                       dict(base, problem=_exc(e)))
         return
     col.nontrivial(("entry", entry, name))
     col.count("entry:" + entry.split("/")[0])
     diffs = H.compare_dbs(ref, db)
     for key, d in sorted(H.diff_keys(diffs).items()):
-        col.violation(("entry-point-differs", entry.split("/")[0]) + tuple(key[1:]),
+        _viol(col, ("entry-point-differs", entry.split("/")[0]) + tuple(key[1:]),
                       dict(base, path=d["path"], from_archive=d["first"], from_entry=d["second"]))
     ex = _db_extras(db)
     for k in ("short_name", "model_version"):
         if ex[k] != ref_extra[k]:
-            col.violation(("entry-point-differs", entry.split("/")[0], "Database", k),
+            _viol(col, ("entry-point-differs", entry.split("/")[0], "Database", k),
                           dict(base, from_archive=ref_extra[k], from_entry=ex[k]))
     if ex["aux"] != ref_extra["aux"]:
-        col.violation(("entry-point-differs", entry.split("/")[0], "Database", "auxiliary_files"),
+        _viol(col, ("entry-point-differs", entry.split("/")[0], "Database", "auxiliary_files"),
                       dict(base, from_archive=sorted(ref_extra["aux"]), from_entry=sorted(ex["aux"]),
                            differing=[k for k in set(ex["aux"]) | set(ref_extra["aux"])
                                       if ex["aux"].get(k) != ref_extra["aux"].get(k)]))
@@ -470,13 +492,15 @@ def judge_perturbation(p: Pert, col: common.Collector,
         col.count("perturbed:" + label)
         if v == "preserved":
             col.count("preserved")
+            if label in ("meta", "explicit-false", "enum", "numstr"):
+                col.sample(dict(base, value_domain=label, verdict=v, **info), limit=8)
             return True
         if v == "xml-syntax":
             v = "attr-misescaped" if label == "meta" else "reload-raises"
         elif label == "meta" and v != "write-raises":
             info = dict(info, observed_as=v)
             v = "attr-misescaped"
-        col.violation((v, cls, field), dict(base, value_domain=label, **info))
+        _viol(col, (v, cls, field), dict(base, value_domain=label, **info))
         return False
 
     if pre and "primary" not in skip:
@@ -625,7 +649,7 @@ def plan(tier: str, usable: Sequence[str], col: common.Collector) -> List[PertSi
                 if n not in seen_classes and any(issubclass(o, c) and o is not c for o in sub.values())}
     all_pairs, all_scalar = [], []
     for n, c in sorted(inv.items()):
-        if n in abstract or c.__dataclass_params__.frozen:
+        if n in abstract or getattr(c, "__dataclass_params__").frozen:
             continue
         for f in dataclasses.fields(c):
             all_pairs.append((n, f.name))
@@ -679,9 +703,9 @@ def plan(tier: str, usable: Sequence[str], col: common.Collector) -> List[PertSi
         if absent and (len(picks) < per_pair):
             picks.append(r.choice(absent))
         while len(picks) < per_pair and len(picks) < len(main):
-            c = r.choice(main)
-            if c not in picks:
-                picks.append(c)
+            extra = r.choice(main)
+            if extra not in picks:
+                picks.append(extra)
         others = [c for c in cands if c not in picks]
         r.shuffle(others)
         others.sort(key=lambda c: 0 if c[3] == "text" else 1)  # stable: free text sites first
@@ -742,12 +766,24 @@ def run(tier: str, col: common.Collector) -> None:
 
 
 def replay(w: Dict[str, Any], col: common.Collector) -> None:
+    """Re-run the source / site of the witness; only the witness' own signature is re-judged
+    (a whole-source round trip shows every difference of that source)."""
     _prep()
     mode = w.get("mode")
+    tmp = common.Collector()
     if mode == "roundtrip":
-        task_roundtrip(w["source"], col)
+        task_roundtrip(w["source"], tmp)
     elif mode == "entry":
-        task_entry((w["source"], 4), col)
+        task_entry((w["source"], 4), tmp)
     elif mode == "perturb":
         path = tuple(w["path"])
-        judge_pair(((w["source"], path, w["cls"], w["field"], w["kind"]), []), col)
+        judge_pair(((w["source"], path, w["cls"], w["field"], w["kind"]), []), tmp)
+    want = tuple(str(x) for x in w.get("sig", ()))
+    col.evaluations += tmp.evaluations
+    for r in tmp.inconclusive:
+        col.fail_inconclusive(r)
+    for sig, ent in tmp.violations.items():
+        if not want or sig == want:
+            for d in ent["witnesses"]:
+                col.violation(sig, d)
+
